@@ -28,8 +28,11 @@ Print Assumptions C03_step_undone.
 (* Leaving a block gives back EXACTLY the state at its entry (content, objective and direction, solver
    problem, cross references, enclosing context stack), and the exit does not raise - for blocks that
    contain, in any number, order and nesting depth, bounds assignments (also failing ones), knock-outs,
-   objective assignments (also failing part-way), objective coefficients and direction changes, and for
-   the block ended after any prefix (an exception between two operations).                           *)
+   objective assignments (also failing part-way), objective coefficients and direction changes, adding
+   metabolites, adding reactions (with the metabolites they bring along) and removing reactions (with or
+   without remove_orphans), and for the block ended after any prefix (an exception between two
+   operations).  Not yet covered by a proved undo lemma (they are in the executable model and in the
+   correspondence): stoichiometry edits, remove_metabolites, scaling.                               *)
 Theorem C03_context_restores_partial : forall s l,
   Inv s -> V s -> ok_items (enter_ctx s) l ->
   exit_ctx (run_items (enter_ctx s) l) = (s, Ok).
